@@ -177,6 +177,7 @@ package sse
 //@   requires auto_ids_consecutive: autoID && q.count > 0 ==> consecutive(q) && forall(k, 0, q.count, at(q, k).ID().set)
 //@   ensures no_earlier_match_replays_nothing: forall(k, 0, q.count-1, at(q, k).ID() != id) && !(autoID && evictedauto(q, id)) ==> result == -1
 //@   ensures starts_after_first_match: forall(p, 0, q.count-1, firstmatch(q, id, p) ==> result == phys(q, p+1))
+//@   ensures trace_untouched: ncalls() == old(ncalls())
 //@   ensures range: result == -1 || (0 <= result && result < len(q.buf))
 //@   ensures empty_replays_nothing: q.count == 0 ==> result == -1
 //@   ensures unknown_id_replays_nothing: !autoID && forall(k, 0, q.count, at(q, k).ID() != id) ==> result == -1
@@ -441,6 +442,8 @@ package sse
 //@   ensures stops_at_first_error: noerrors(old(ncalls()), ncalls()-1)
 //@   ensures error_is_the_last_writes: result1 == cret(ncalls()-1, "Write", 1)
 //@   ensures complete_when_ok: result1 == nil ==> ncalls() == old(ncalls()) + 3
+//@   ensures bytes_were_written: result1 == nil ==> result > 0
+//@   ensures count_non_negative: result >= 0
 
 //@ func Message.writeMessageField
 //@   ensures unset_writes_nothing: !f.set ==> ncalls() == old(ncalls()) && result == 0 && result1 == nil
@@ -453,6 +456,8 @@ package sse
 //@   ensures stops_at_first_error: noerrors(old(ncalls()), ncalls()-1)
 //@   ensures error_is_the_last_writes: f.set ==> result1 == cret(ncalls()-1, "Write", 1)
 //@   ensures complete_when_ok: f.set && result1 == nil ==> ncalls() == old(ncalls()) + 3
+//@   ensures bytes_were_written: f.set && result1 == nil && len(fieldBytes) > 0 ==> result > 0
+//@   ensures count_non_negative: result >= 0
 
 //@ pure pow10(i) = ite(i <= 0, 1, ite(i == 1, 10, ite(i == 2, 100, ite(i == 3, 1000, ite(i == 4, 10000, ite(i == 5, 100000, ite(i == 6, 1000000,
 //@     ite(i == 7, 10000000, ite(i == 8, 100000000, ite(i == 9, 1000000000, ite(i == 10, 10000000000, ite(i == 11, 100000000000, ite(i == 12, 1000000000000, 10000000000000)))))))))))))
@@ -472,6 +477,8 @@ package sse
 //@   ensures stops_at_first_error: noerrors(old(ncalls()), ncalls()-1)
 //@   ensures error_is_the_last_writes: retrymillis(e) > 0 ==> result1 == cret(ncalls()-1, "Write", 1)
 //@   ensures complete_when_ok: retrymillis(e) > 0 && result1 == nil ==> ncalls() == old(ncalls()) + 3
+//@   ensures bytes_were_written: retrymillis(e) > 0 && result1 == nil ==> result > 0
+//@   ensures count_non_negative: result >= 0
 //@   invariant 0 index_range: -1 <= i && i <= 12 && millis >= 0 && millis < pow10(i+1)
 //@   invariant 0 digits_so_far: forall(j, i+1, 13, 48 <= buf[j] && buf[j] <= 57)
 //@   invariant 0 leading_digit: i < 12 ==> (millis == 0 ==> buf[i+1] != 48)
@@ -508,7 +515,7 @@ package sse
 //@   invariant 0 type_line: e.Type.set ==> let(b, old(ncalls()) + idn(e), warg(b) == "event: " && warg(b+1) == e.Type.value && warg(b+2) == "\n")
 //@   invariant 0 retry_line: retrymillis(e) > 0 ==> let(b, old(ncalls()) + idn(e) + tyn(e), warg(b) == "retry: " && alldigits(warg(b+1)) && len(warg(b+1)) >= 1 && warg(b+2) == "\n")
 //@   invariant 0 chunk_lines: let(b, old(ncalls()) + hdr(e), forall(i, 0, ri0, warg(b+3*i) == ite(e.chunks[i].isComment, ": ", "data: ") && warg(b+3*i+1) == e.chunks[i].content && warg(b+3*i+2) == "\n"))
-//@   invariant 0 bytes_iff_writes: iff(n == 0, ncalls() == old(ncalls()))
+//@   invariant 0 bytes_iff_writes: n >= 0 && iff(n == 0, ncalls() == old(ncalls()))
 
 //@ func Message.appendText
 //@   requires e != nil
